@@ -317,3 +317,118 @@ Lemma bpwf_same_locs s s1 : bpwf s -> all_locs (c_bp s1) = all_locs (c_bp s) -> 
 Proof.
   intros [W1 W2 W3] E H. constructor; rewrite E; auto. intros loc Hl. destruct (W1 loc Hl). lia.
 Qed.
+
+(** ** back-patching a set of pending windows *)
+Definition patch_all (out : list N) (locs : list Z) (pos : Z) : list N :=
+  fold_left (fun o l => overwrite o (Z.to_nat l) (u32_bytes pos)) locs out.
+
+Lemma fold_back_patch pos : forall locs s,
+  let s' := fold_left (fun acc l => back_patch acc l pos) locs s in
+  c_out s' = patch_all (c_out s) locs pos /\ c_bp s' = c_bp s /\ c_stack s' = c_stack s /\ c_next s' = c_next s
+  /\ c_reuse s' = c_reuse s /\ c_consts s' = c_consts s /\ c_last s' = c_last s.
+Proof.
+  induction locs as [|a r IH]; intros s; cbn [fold_left patch_all].
+  - repeat split.
+  - specialize (IH (back_patch s a pos)). cbn zeta in IH. destruct IH as (A & B & C & D & E & G & H).
+    unfold patch_all in *. rewrite A, B, C, D, E, G, H. repeat split.
+Qed.
+
+Definition win_ok (n : nat) (loc : Z) : Prop := 0 <= loc /\ (Z.to_nat loc + 4 <= n)%nat.
+Definition sep (a b : Z) : Prop := a + 4 <= b \/ b + 4 <= a.
+
+Lemma patch_all_length pos : forall locs out, Forall (win_ok (length out)) locs -> length (patch_all out locs pos) = length out.
+Proof.
+  induction locs as [|a r IH]; intros out H; cbn [patch_all fold_left]; [reflexivity|].
+  inversion H as [|? ? Ha Hr]; subst. destruct Ha as [Ha0 Ha1].
+  assert (L : length (overwrite out (Z.to_nat a) (u32_bytes pos)) = length out).
+  { apply overwrite_length. rewrite u32_bytes_length. exact Ha1. }
+  fold (patch_all (overwrite out (Z.to_nat a) (u32_bytes pos)) r pos). rewrite IH; [exact L|]. rewrite L. exact Hr.
+Qed.
+
+Lemma patch_all_other pos p : forall locs out,
+  (forall loc, In loc locs -> 0 <= loc /\ ~ in_win loc p) -> nth p (patch_all out locs pos) 0%N = nth p out 0%N.
+Proof.
+  induction locs as [|a r IH]; intros out H; cbn [patch_all fold_left]; [reflexivity|].
+  fold (patch_all (overwrite out (Z.to_nat a) (u32_bytes pos)) r pos). rewrite IH by (intros; apply H; right; auto).
+  apply nth_overwrite_other. rewrite u32_bytes_length. destruct (H a (or_introl eq_refl)) as [H0 H1]. unfold in_win in H1. lia.
+Qed.
+
+Lemma patch_all_in pos p loc : forall locs out,
+  In loc locs -> in_win loc p -> Forall (win_ok (length out)) locs ->
+  (forall a b, In a locs -> In b locs -> a = b \/ sep a b) ->
+  nth p (patch_all out locs pos) 0%N = nth (p - Z.to_nat loc) (u32_bytes pos) 0%N.
+Proof.
+  induction locs as [|a r IH]; intros out Hin Hw Hok Hsep; [destruct Hin|].
+  cbn [patch_all fold_left]. fold (patch_all (overwrite out (Z.to_nat a) (u32_bytes pos)) r pos).
+  inversion Hok as [|? ? Ha Hr]; subst. destruct Ha as [Ha0 Ha1].
+  assert (L : length (overwrite out (Z.to_nat a) (u32_bytes pos)) = length out).
+  { apply overwrite_length. rewrite u32_bytes_length. exact Ha1. }
+  destruct (in_dec Z.eq_dec loc r) as [Hr'|Hr'].
+  - apply IH; auto. { rewrite L. exact Hr. } intros; apply Hsep; right; auto.
+  - destruct Hin as [->|Hin]; [|contradiction].
+    rewrite patch_all_other.
+    + apply nth_overwrite_in; rewrite u32_bytes_length; unfold in_win in Hw; lia.
+    + intros b Hb. rewrite Forall_forall in Hr. destruct (Hr b Hb) as [Hb0 _]. split; [exact Hb0|].
+      destruct (Hsep loc b (or_introl eq_refl) (or_intror Hb)) as [->|Hs]; [contradiction|].
+      unfold in_win, sep in *. lia.
+Qed.
+
+(** window [loc] holds the target [T] and is no longer pending *)
+Definition resolved (s : cstate) (loc T : Z) : Prop :=
+  0 <= loc /\ (Z.to_nat loc + 4 <= length (c_out s))%nat /\
+  forall j, (j < 4)%nat -> nth (Z.to_nat loc + j) (c_out s) 0%N = nth j (u32_bytes T) 0%N /\ ~ pending s (Z.to_nat loc + j).
+
+Lemma pending_sub s s1 p : (forall x, In x (all_locs (c_bp s1)) -> In x (all_locs (c_bp s))) -> pending s1 p -> pending s p.
+Proof. intros H (loc & Hl & Hw). exists loc. auto. Qed.
+
+Lemma nodup_app {A} (a b : list A) : NoDup (a ++ b) -> NoDup b /\ forall x, In x a -> In x b -> False.
+Proof.
+  induction a as [|y a IH]; cbn; intros H; [split; [exact H|intros x []]|].
+  inversion H as [|? ? Hy Hn]; subst. destruct (IH Hn) as [Hb Hd]. split; [exact Hb|].
+  intros x [->|Hx] Hxb; [apply Hy; apply in_or_app; auto|eapply Hd; eauto].
+Qed.
+
+(** [End] with a result-less frame: all jumps of the frame are patched to the current offset *)
+Lemma end_patch s locs bp' s1 :
+  bpwf s -> c_bp s = JUnknown locs None :: bp' ->
+  s1 = fold_left (fun acc l => back_patch acc l (cur_off s)) locs (set_bp (set_last s None) bp') ->
+  c_bp s1 = bp' /\ c_stack s1 = c_stack s /\ c_next s1 = c_next s /\ c_reuse s1 = c_reuse s /\ c_consts s1 = c_consts s
+  /\ c_last s1 = None /\ cur_off s1 = cur_off s /\ bpwf s1 /\ ext s s1
+  /\ forall loc, In loc locs -> resolved s1 loc (cur_off s).
+Proof.
+  intros W Eb ->. destruct (fold_back_patch (cur_off s) locs (set_bp (set_last s None) bp')) as (A & B & C & D & E & G & H).
+  cbn zeta in *. set (s1 := fold_left _ locs _) in *. cbn [set_bp set_last c_out c_bp c_stack c_next c_reuse c_consts c_last] in *.
+  assert (Hall : all_locs (c_bp s) = locs ++ all_locs bp') by (rewrite Eb; reflexivity).
+  assert (Hok : Forall (win_ok (length (c_out s))) locs).
+  { apply Forall_forall. intros x Hx. destruct (bw_range _ W x) as [X0 X1]; [rewrite Hall; apply in_or_app; auto|].
+    unfold cur_off in X1. split; lia. }
+  assert (Hsep : forall a b, In a locs -> In b locs -> a = b \/ sep a b).
+  { intros a b Ha Hb. apply (bw_sep _ W); rewrite Hall; apply in_or_app; auto. }
+  assert (L : length (c_out s1) = length (c_out s)) by (rewrite A; apply patch_all_length; exact Hok).
+  assert (Hsub : forall x, In x (all_locs (c_bp s1)) -> In x (all_locs (c_bp s))).
+  { intros x Hx. rewrite B in Hx. rewrite Hall. apply in_or_app; auto. }
+  assert (Hco : cur_off s1 = cur_off s) by (unfold cur_off; rewrite L; reflexivity).
+  splits; auto.
+  - constructor.
+    + intros loc Hl. rewrite Hco. apply (bw_range _ W). auto.
+    + intros a b Ha Hb. apply (bw_sep _ W); auto.
+    + rewrite B. pose proof (bw_nodup _ W) as Hn. rewrite Hall in Hn. apply nodup_app in Hn. apply Hn.
+  - split; [lia|]. intros p Hp Hn. split.
+    + rewrite A. apply patch_all_other. intros loc Hl. split.
+      * apply (bw_range _ W). rewrite Hall. apply in_or_app; auto.
+      * intros Hw. apply Hn. exists loc. split; [rewrite Hall; apply in_or_app; auto|exact Hw].
+    + intros Hp1. apply Hn. eapply pending_sub; eauto.
+  - intros loc Hl. rewrite Forall_forall in Hok. destruct (Hok loc Hl) as [H0 H1]. split; [exact H0|]. split; [lia|].
+    intros j Hj. split.
+    + rewrite A. rewrite (patch_all_in (cur_off s) (Z.to_nat loc + j) loc locs (c_out s) Hl); auto.
+      * f_equal. lia.
+      * unfold in_win. lia.
+      * apply Forall_forall. exact Hok.
+    + intros (x & Hx & Hw). rewrite B in Hx.
+      assert (Hx' : In x (all_locs (c_bp s))) by (rewrite Hall; apply in_or_app; auto).
+      assert (Hl' : In loc (all_locs (c_bp s))) by (rewrite Hall; apply in_or_app; auto).
+      destruct (bw_sep _ W loc x Hl' Hx') as [->|Hs].
+      * pose proof (bw_nodup _ W) as Hn. rewrite Hall in Hn. apply nodup_app in Hn. destruct Hn as [_ Hn]. apply (Hn x); auto.
+      * unfold in_win in Hw. lia.
+Qed.
+
